@@ -69,4 +69,8 @@ func init() {
 		Rule{Name: "E11.key-source", Run: runSchemaKeySource}, Rule{Name: "E11.key-canonical", Run: runKeyCanonical}, Rule{Name: "E11.consumers", Run: runLookupConsumers}, Rule{Name: "E3", Run: runE3}, Rule{Name: "E5", Run: runE5})
 }
 
+func init() {
+	register("C20", Rule{Name: "E1.rows", Run: runRows("C20")}, Rule{Name: "E12.visitor", Run: runVisitorStateless})
+}
+
 var childExceptions = map[string]string{}
